@@ -38,6 +38,11 @@ def run(project, rep):
     rep.run(W.w_r6_html_names, schema, rep)
     rep.run(W.w_r7_indent, project, rep)
     rep.run(T.t_r7, project, rep)
+    from .. import rules_dates as Z
+    rep.rule("W-R9", "date-times survive as instants: writer offset notation inside the reader grammar (Z-R3), field-to-value plumbing (Z-R4), minutes take the sign of the hours (Z-R5)")
+    rep.run(Z.z_r3_writer_shape, project, rep)
+    rep.run(Z.z_r4_conversion, project, rep)
+    rep.run(Z.z_r5_offset_sign, project, rep)
     from .. import rules_header as H
     rep.rule("W-R8", "the header written for a version is of the kind the reader expects and the body is decoded with the codec the header declares (B-R1, B-R3, H-R2, H-R3)")
     rep.run(H.b_rules, project, rep)
